@@ -153,6 +153,22 @@ def r3_chain(chk, prog):
             hi = deep_origins(ctx, t.args[1], 3)
             ok = all(o.kind == "const" and o.extra is not None and o.extra.const_int == 1 for o in lo) and \
                 any(o.fields[-3:] == ("root", "signed", "version") for o in hi)
+        else:
+            # the half-open spelling `1..version + 1`
+            for b in ctx.body.blocks:
+                for s_ in b.stmts:
+                    if s_.k == "assign" and s_.rv.k == "agg" and s_.rv.j.get("adt") == "core::ops::range::Range":
+                        lo = ctx.origins.of_operand(s_.rv.ops[0])
+                        hi = ctx.origins.of_operand(s_.rv.ops[1])
+                        plus1 = False
+                        for o in hi:
+                            if o.kind == "bin" and o.key[2].startswith("Add"):
+                                ops = o.extra.rv.ops
+                                one = any(x.is_const and x.const_int == 1 for x in ops)
+                                ver = any(y.fields[-3:] == ("root", "signed", "version") for x in ops if not x.is_const
+                                          for y in deep_origins(ctx, x, 3))
+                                plus1 = one and ver
+                        ok = all(o.kind == "const" and o.extra is not None and o.extra.const_int == 1 for o in lo) and bool(lo) and plus1
         chk.require(ok, "R3", ctx.fn, "range-1-to-trusted-version",
                     "the root chain is not copied for the inclusive range 1..=self.root.signed.version (exclusive ranges "
                     "show up as core::ops::Range and miss the trusted root itself)")
